@@ -629,7 +629,7 @@ class ContractAdapter:
         if E.path.branch(israise, 'callee-raises:' + con.target.split(':')[1]):
             k = self._exc_class(E, exp, raises)
             raise I.PyRaise(I.SExc(k, [I.T(E.path.fresh('excmsg'))]))
-        return I.T(exp.val)
+        return I.T(cofactor(exp.val, z3.simplify(z3.Not(israise))))
 
     def apply_relational(self, E, vals_):
         """Contract given by ``ensures`` only: the result is a fresh value
